@@ -57,7 +57,7 @@ func (x *c07World) Enabled() []bfs.Op {
 		}
 	}
 	ops = append(ops, bfs.Op{Name: "List"}, bfs.Op{Name: "Signers"})
-	o("Add", "K1", "c.past", "c.cur", "c.lapsing", "c.forever", "c.future", "c.zero", "c.edge", "c.vb63", "c.va63", "K2", "c2.past")
+	o("Add", "K1", "c.past", "c.cur", "c.lapsing", "c.forever", "c.future", "c.zero", "c.edge", "c.vb63", "c.va63", "K2", "c2.past", "c.inverted")
 	o("AddHardCert", "h1", "h1x", "h3", "h1past", "h2")
 	o("Sign", "K1", "c.cur", "c.past", "c.lapsing", "h1", "h1x", "c.forever", "c.future")
 	o("Remove", "K1", "c.cur", "c.forever", "h1", "c.lapsing")
@@ -350,7 +350,7 @@ func why(n string, now interface{ Unix() int64 }) string {
 
 func checkC07(c *ev.Ctx) {
 	setupFixtures()
-	c.Rule("E1 BFS over histories of the real shimagent.Server with a virtual clock: Add(12 identities incl. past/current/future/lapsing/edge/zero/forever/2^63 windows), AddHardCert(5), Remove(5), RemoveAll, List, Signers, Sign(8), direct removals and lock/unlock on the underlying agent, clock ticks (+1min x2, +1h x1); roots = both upstream modes x 6 initial contents (incl. two where, once a key is removed, everything the underlying agent reports is out of window); oracle against the intended contents. non-trivial = listing/signing transition that purged or orphan-dropped something; distinct by (operation, intended sets, clock)")
+	c.Rule("E1 BFS over histories of the real shimagent.Server with a virtual clock: Add(13 identities incl. past/current/future/lapsing/edge/zero/forever/2^63/inverted windows), AddHardCert(5), Remove(5), RemoveAll, List, Signers, Sign(8), direct removals and lock/unlock on the underlying agent, clock ticks (+1min x2, +1h x1); roots = both upstream modes x 6 initial contents (incl. two where, once a key is removed, everything the underlying agent reports is out of window); oracle against the intended contents. non-trivial = listing/signing transition that purged or orphan-dropped something; distinct by (operation, intended sets, clock)")
 	c.Assume("certificate validity reference: va <= now <= vb after clamping to 2^63-1", "mem certificates whose key is held only inside an out-of-window certificate are don't-care for one listing (either outcome accepted)")
 	var roots []string
 	for _, mode := range []string{"up", "noup"} {
